@@ -198,6 +198,11 @@ def _wiring(acc, job):
             m.load_data(pd.DataFrame(X), y, sensitive_features=table)
             if len(set(m.index.get_level_values(2))) != ntup or _partition(list(m.tags["group_id"])) != want:
                 problems.append(f"moment groups {sorted(set(m.index.get_level_values(2)))}")
+            # the same table as CONTROL features of a moment: the events (= control strata for demographic parity) partition the rows like the tuples
+            m2 = DemographicParity()
+            m2.load_data(pd.DataFrame(X), y, sensitive_features=["g%d" % (i % 2) for i in range(n)], control_features=table)
+            if _partition(list(m2.tags["event"])) != want:
+                problems.append(f"moment control strata {sorted(set(map(str, m2.tags['event'])))} do not separate the control tuples")
             mf = MetricFrame(metrics=count, y_true=y, y_pred=y, sensitive_features=pd.DataFrame(table, columns=[f"c{j}" for j in range(ncols)]).astype(str))
             nonempty = int((mf.by_group.notna() & (mf.by_group > 0)).sum())
             if nonempty != ntup:
